@@ -97,6 +97,36 @@ pub fn gen_text(rng: &mut Rng) -> (String, Vec<&'static str>) {
     (s, tags)
 }
 
+/// `parse_file` on a path that a moment ago held a DIFFERENT text of the same byte length (parsed
+/// once, so anything remembered per path / size / time stamp is stale); every instruction (or
+/// the error) must carry the path as its source, which is then stripped so that the answer is
+/// comparable with `parse_text`'s
+fn run_file_route(text: &str) -> String {
+    use std::sync::atomic::{AtomicUsize, Ordering};
+    static N: AtomicUsize = AtomicUsize::new(0);
+    thread_local! { static ID: usize = N.fetch_add(1, Ordering::SeqCst); }
+    let path = std::env::temp_dir().join(format!("duck-c08-{}-{}.ds", std::process::id(), ID.with(|i| *i)));
+    let p = path.to_string_lossy().to_string();
+    // decoy: same length, every ASCII letter / digit replaced by its neighbour
+    let decoy: String = text.chars().map(|c| match c { 'a'..='y' | 'A'..='Y' | '0'..='8' => ((c as u8) + 1) as char, 'z' => 'a', 'Z' => 'A', '9' => '0', _ => c }).collect();
+    if decoy != text {
+        let _ = std::fs::write(&path, &decoy);
+        let _ = duckscript::parser::parse_file(&p);
+    }
+    if std::fs::write(&path, text).is_err() {
+        return "TEMP-FILE-ERROR".to_string();
+    }
+    let r = duckscript::parser::parse_file(&p);
+    let _ = std::fs::remove_file(&path);
+    let line = enc_parse(&r);
+    let tag = format!(":{}", enc_str(&p));
+    let expected = match &r { Ok(is) => is.len(), Err(_) => 1 };
+    if line.matches(&tag).count() != expected {
+        return format!("SOURCE-TAG-WRONG {}", line.replace(&tag, ":<path>"));
+    }
+    line.replace(&tag, ":-")
+}
+
 impl Prop for C08Prop {
     fn id(&self) -> &'static str {
         "C08"
@@ -115,6 +145,24 @@ impl Prop for C08Prop {
         let alpha = ['a', ' ', '"', '\\', '#', '=', ':', '!', '\n', '$', '{'];
         let k = if tier == Tier::Quick { 4 } else { 5 };
         let mut out = vec![];
+        // file route: a byte-order mark and blank lines at the start; files longer than the usual
+        // read-block sizes with a multi-byte character across offsets 4096 / 8192 / 16384 / 65536
+        for t in ["\u{feff}\n\n   \nvalue = set 1\n", "\u{feff}x", "\n\n\u{feff}", "\u{feff}", "\u{feff}echo \"abc\n"] {
+            out.push(Case { req: format!("fparse {}", enc_str(t)), in_domain: true, nontrivial: true, tags: vec!["file-route", "bom"] });
+            out.push(Case { req: format!("parse {}", enc_str(t)), in_domain: true, nontrivial: true, tags: vec!["bom"] });
+        }
+        for block in [4096usize, 8192, 16384, 65536] {
+            for (ch, w) in [("é", 2usize), ("€", 3), ("😀", 4)] {
+                for shift in 1..w {
+                    // `c <pad>` then the character repeated: one occurrence straddles `block`
+                    let head = "c ";
+                    let pad = (block - shift - head.len()) % w;
+                    let n = (block - shift - head.len() - pad) / w;
+                    let t = format!("{}{}{}\nd {}\n", head, "x".repeat(pad), ch.repeat(n + 3), ch);
+                    out.push(Case { req: format!("fparse {}", enc_str(&t)), in_domain: true, nontrivial: true, tags: vec!["file-route", "block-boundary"] });
+                }
+            }
+        }
         let mut cur: Vec<Vec<char>> = vec![vec![]];
         for _ in 0..=k {
             let mut next = vec![];
@@ -174,6 +222,11 @@ impl Prop for C08Prop {
         let op = if rng.chance(1, 4) {
             tags.push("indexed");
             "iparse"
+        } else if !s.contains('!') && rng.chance(1, 6) {
+            // the same text through `parse_file` (written to a path that held another text of the
+            // same length a moment ago)
+            tags.push("file-route");
+            "fparse"
         } else {
             "parse"
         };
@@ -185,6 +238,9 @@ impl Prop for C08Prop {
             return run_huge(toks[1].parse().unwrap());
         }
         let text = dec_str(toks[1]).unwrap();
+        if toks[0] == "fparse" {
+            return run_file_route(&text);
+        }
         if toks[0] == "iparse" {
             // the real index arithmetic on the same text; a panic unwinds to the framework's
             // catch_unwind and is reported as PANIC
